@@ -119,8 +119,10 @@ def coq_otrace(lines):
 def cli_jobs(ctx, first):
     """the binary: down once at the end, whether the targets succeed or fail"""
     jobs = []
-    ctxd = {"cx": {"up": ['echo upb.0 >> "$PROJ/trace"; echo upe.0 >> "$PROJ/trace"'], "down": ['echo down.0 >> "$PROJ/trace"'],
-                   "before": ['echo cb.0 >> "$PROJ/trace"'], "after": ['echo ca.0 >> "$PROJ/trace"']},
+    # every hook is a LIST of commands in which one command text occurs twice: each listed command runs, in order, as often as it is listed
+    rep = 'echo rep.%s >> "$PROJ/trace"'
+    ctxd = {"cx": {"up": [rep % "up", 'echo upb.0 >> "$PROJ/trace"; echo upe.0 >> "$PROJ/trace"', rep % "up"], "down": [rep % "down", 'echo down.0 >> "$PROJ/trace"', rep % "down"],
+                   "before": [rep % "cb", 'echo cb.0 >> "$PROJ/trace"', rep % "cb"], "after": [rep % "ca", 'echo ca.0 >> "$PROJ/trace"', rep % "ca"]},
             "unused": {"up": ['echo upb.1 >> "$PROJ/trace"'], "down": ['echo down.1 >> "$PROJ/trace"']},
             "cy": {"up": ['echo upb.2 >> "$PROJ/trace"; echo upe.2 >> "$PROJ/trace"'], "down": ['echo down.2 >> "$PROJ/trace"; exit 7']},
             "cz": {"up": ['echo upb.3 >> "$PROJ/trace"; echo upe.3 >> "$PROJ/trace"'], "down": ['echo down.3 >> "$PROJ/trace"; exit 7']}}
@@ -214,12 +216,18 @@ def run(ctx):
                 tr.append("body.%d" % renum[int(v)])
             else:
                 tr.append(l)
+        reps_ok = True
+        for hk, tok in (("up", "upb.0"), ("down", "down.0"), ("cb", "cb.0"), ("ca", "ca.0")):
+            # ... the repeated command of a hook: before and after the hook's own token, every time the hook runs
+            seq = [l for l in lines if l in ("rep." + hk, tok)]
+            if seq != ["rep." + hk, tok, "rep." + hk] * (len(seq) // 3) or len(seq) % 3:
+                reps_ok = False
         k = len(items)
         index[k] = (j, r, "cli")
         errs = vlib.clist([t in ("bad2", "pbad") for t in ran], vlib.cbool)
         # the monitor too: it is the one that places `down` after everything else (seq_ok compares the trace without the downs)
         items.append("(%d%%N, seq_ok %s %s true && ctx_mon %s %s %s true && %s)" % (
-            k, g, coq_otrace(tr), g, coq_otrace(tr), errs, vlib.cbool(not bad_tok and not r["timeout"] and not clilib.crashed(r))))
+            k, g, coq_otrace(tr), g, coq_otrace(tr), errs, vlib.cbool(reps_ok and not bad_tok and not r["timeout"] and not clilib.crashed(r))))
         res.nontrivial_keys.add(json.dumps([tg, j["form"]]))
     bad = set()
     for rc, o, start, cnt in vlib.coq_eval_sharded(ctx.workdir, "cases_c14", HEADER, items, lambda: FOOTER, shard=300):
